@@ -15,7 +15,7 @@ from lib import esc, esc_list, unesc
 
 THEOREMS = ['C12.C12_capability_read', 'C12.C12_network_read', 'C12.C12_signal_read', 'C12.C12_ptrace_read', 'C12.C12_file_read',
             'C12.C12_one_exec_mode', 'C12.C12_fused_exec_modes', 'C12.C12_space_unquoted', 'C12.C12_reader_rejects_example', 'C12.C12_capability_all_lists', 'C12.capability_names_simple', 'C12.C12_file_all_paths', 'C12.C12_network_all',
-            'C12.ptrace_access_words', 'C12.C12_ptrace_all', 'C12.signal_words', 'C12.C12_signal_all', 'C12.rlimit_key_words', 'C12.C12_rlimit_all', 'C12.cp_modes', 'C12.C12_change_profile_all', 'C12.C12_link_all', 'C12.C12_readers_agree_link', 'C12.C12_readers_agree_change_profile', 'C12.C12_readers_agree_rlimit']
+            'C12.ptrace_access_words', 'C12.C12_ptrace_all', 'C12.signal_words', 'C12.C12_signal_all', 'C12.rlimit_key_words', 'C12.C12_rlimit_all', 'C12.cp_modes', 'C12.C12_change_profile_all', 'C12.C12_link_all', 'C12.C12_readers_agree_link', 'C12.C12_readers_agree_change_profile', 'C12.C12_readers_agree_rlimit', 'C12.agree_table_facts', 'C12.C12_readers_agree_capability', 'C12.C12_readers_agree_ptrace', 'C12.C12_readers_agree_signal']
 READ_KINDS = ('capability', 'network', 'signal', 'ptrace', 'file', 'link', 'change_profile', 'rlimit')
 AA3 = ['capability', 'network', 'mount', 'umount', 'remount', 'pivot_root', 'change_profile', 'signal', 'ptrace', 'unix', 'dbus',
        'rlimit', 'file', 'file', 'file', 'link']
